@@ -142,13 +142,13 @@ fn value_pool(thorough: bool) -> Vec<Option<Lit>> {
     let mut p = vec![
         None,
         Some(Lit::I(0)), Some(Lit::I(1)), Some(Lit::I(2)),
-        Some(Lit::F(F1)), Some(Lit::F(F1_5)), Some(Lit::F(F0_5_NEXT)), Some(Lit::F(NAN)),
+        Some(Lit::F(F1)), Some(Lit::F(F1_5)), Some(Lit::F(F0_5_NEXT)), Some(Lit::F(F1_NEXT)), Some(Lit::F(NAN)),
         Some(Lit::S("a".into())), Some(Lit::S("m".into())), Some(Lit::S("z".into())),
         Some(Lit::B(true)), Some(Lit::B(false)),
     ];
     if thorough {
         p.extend([Some(Lit::I(-1)), Some(Lit::I(9007199254740993)), Some(Lit::I(i64::MIN)),
-                  Some(Lit::F(F0_5)), Some(Lit::F(F1_NEXT)), Some(Lit::F(0)), Some(Lit::F(NEG_ZERO)), Some(Lit::F(TINY)),
+                  Some(Lit::F(F0_5)), Some(Lit::F(0)), Some(Lit::F(NEG_ZERO)), Some(Lit::F(TINY)),
                   Some(Lit::F(INF)), Some(Lit::F(TWO53)), Some(Lit::F(F2)), Some(Lit::S("".into())), Some(Lit::S("1".into())), Some(Lit::Null)]);
     }
     p
